@@ -68,6 +68,67 @@ def run_one(args):
         shutil.rmtree(tmp, ignore_errors=True)
 
 
+def seeded(pid):
+    """seeded changes kept under /verif/seeded/<name>/ (patch.diff + meta.json naming the property)"""
+    import json
+
+    out = []
+    root = os.path.join(VERIF, "seeded")
+    if not os.path.isdir(root):
+        return out
+    for d in sorted(os.listdir(root)):
+        meta = os.path.join(root, d, "meta.json")
+        patch = os.path.join(root, d, "patch.diff")
+        if not (os.path.exists(meta) and os.path.exists(patch)):
+            continue
+        m = json.load(open(meta))
+        if m.get("property") != pid:
+            continue
+        out.append((d, patch, m.get("expect", "fire"), m.get("needle")))
+    return out
+
+
+def run_seed(args):
+    pid, (name, patch, expect, needle), repo = args
+    tmp = tempfile.mkdtemp(prefix="verif_scratch_%d_" % os.getpid())
+    try:
+        shutil.copytree(os.path.join(repo, "tf_pwa"), os.path.join(tmp, "tf_pwa"), ignore=shutil.ignore_patterns("__pycache__"))
+        p = subprocess.run(["patch", "-p1", "-s", "-d", tmp, "-i", patch], capture_output=True, text=True)
+        if p.returncode != 0:
+            return (pid, "seeded:" + name, False, "patch does not apply: %s" % (p.stdout + p.stderr)[-300:])
+        p = subprocess.run([sys.executable, os.path.join(HERE, "check.py"), pid, "--repo", tmp, "--no-evidence"], capture_output=True, text=True, timeout=900)
+        out = p.stdout + p.stderr
+        if expect == "fire":
+            ok = p.returncode == 1 and "VIOLATION property=%s" % pid in out
+            if ok and needle and needle not in out:
+                return (pid, "seeded:" + name, False, "fired, but the report does not name %r" % needle)
+            return (pid, "seeded:" + name, ok, "exit %d%s" % (p.returncode, "" if ok else " (expected 1)\n" + out[-1200:]))
+        if expect == "miss":
+            # a recorded limitation: the change breaks behaviour in a way no structural clause covers
+            return (pid, "seeded:" + name, p.returncode in (0, 1), "exit %d (documented miss)" % p.returncode)
+        ok = p.returncode == 0
+        return (pid, "seeded:" + name, ok, "exit %d" % p.returncode)
+    finally:
+        shutil.rmtree(tmp, ignore_errors=True)
+
+
+def run_all(pids, repo, jobs):
+    jobs_m, jobs_s = [], []
+    for pid in pids:
+        try:
+            for mut in load(pid):
+                jobs_m.append((pid, mut, repo))
+        except ImportError:
+            pass
+        for sd in seeded(pid):
+            jobs_s.append((pid, sd, repo))
+    results = []
+    with cf.ThreadPoolExecutor(max_workers=jobs) as ex:
+        results.extend(ex.map(run_one, jobs_m))
+        results.extend(ex.map(run_seed, jobs_s))
+    return results
+
+
 def main():
     ap = argparse.ArgumentParser()
     ap.add_argument("pids", nargs="*")
@@ -78,21 +139,20 @@ def main():
     pids = [p.upper() for p in a.pids]
     if not pids:
         pids = sorted(f[:-3].upper() for f in os.listdir(os.path.join(HERE, "mutants")) if f.startswith("c") and f.endswith(".py"))
-    jobs = []
-    for pid in pids:
-        for mut in load(pid):
-            jobs.append((pid, mut, a.repo))
     if a.list:
-        for pid, mut, _ in jobs:
-            print(pid, mut[0], mut[4])
+        for pid in pids:
+            for mut in load(pid):
+                print(pid, mut[0], mut[4])
+            for sd in seeded(pid):
+                print(pid, "seeded:" + sd[0], sd[2])
         return 0
     bad = 0
-    with cf.ThreadPoolExecutor(max_workers=a.jobs) as ex:
-        for pid, name, ok, msg in ex.map(run_one, jobs):
-            print("%s %-5s %-50s %s" % ("ok  " if ok else "FAIL", pid, name, msg))
-            if not ok:
-                bad += 1
-    print("selftest: %d mutants, %d unexpected" % (len(jobs), bad))
+    results = run_all(pids, a.repo, a.jobs)
+    for pid, name, ok, msg in results:
+        print("%s %-5s %-50s %s" % ("ok  " if ok else "FAIL", pid, name, msg))
+        if not ok:
+            bad += 1
+    print("selftest: %d mutants, %d unexpected" % (len(results), bad))
     return 1 if bad else 0
 
 
